@@ -61,4 +61,39 @@ def missFlag (dropCensoring : Bool) (rows : List (Raw F)) : Bool :=
 def outcomeFitRows (l : List (Row F)) : List (Row F) := l.filter (·.obs)
 
 end
+
+/-! ### The frame `check_input_data` is handed, before any validation
+
+The translator (`harness/py2lean.py`, `gen_inputdata`) regenerates `check_input_data` over this row type
+(`Gen/InputData.lean`).  The exposure is a *number* here (`binary_exposure_only` is a check the function makes, not an
+assumption), every column other than exposure and outcome is summarised by `c` (`none` = one of them is NaN).
+`Raw.toD` embeds the rows of the model above; `formatD` reads the formatted frame the way the estimators do (the
+observed-outcome flag is the generated `__missing_indicator__` column, not a recomputation from the outcome). -/
+
+structure DRow (F : Type) where
+  i : Nat             -- row label (survives `reset_index()` as the column `index`)
+  e : Option F        -- exposure column
+  c : Option Nat      -- pattern of the other columns; none = one of them is NaN
+  y : Option F        -- outcome column
+  w : F               -- frequency weight
+
+def DRow.covComplete (r : DRow F) : Bool := r.e.isSome && r.c.isSome
+def DRow.complete (r : DRow F) : Bool := r.e.isSome && r.c.isSome && r.y.isSome
+/-- which rows `check_input_data` documents to keep -/
+def keptD (dropCensoring : Bool) (r : DRow F) : Bool := if dropCensoring then r.complete else r.covComplete
+
+section
+variable [NatCast F]
+
+def Raw.toD (r : Raw F) : DRow F :=
+  ⟨r.i, r.a.map (fun b => if b then ((1 : Nat) : F) else ((0 : Nat) : F)), r.l, r.y, r.w⟩
+
+/-- a formatted row as the estimators read it: exposure `== 1`, observed = the indicator column `== 1` -/
+def toRowD [DecidableEq F] (r : DRow F) (ind : Nat) : Row F :=
+  ⟨r.i, r.c.getD 0, r.e == some ((1 : Nat) : F), r.y.getD ((0 : Nat) : F), r.w, ind == 1⟩
+
+/-- the formatted frame with its `__missing_indicator__` column -/
+def formatD [DecidableEq F] (data : List (DRow F)) (ind : List Nat) : List (Row F) := List.zipWith toRowD data ind
+
+end
 end ZV.Miss
